@@ -2,7 +2,7 @@ import json,glob,sys
 P=sys.argv[1]
 ev=json.load(open('/verif/evidence/%s.json'%P))
 print(ev['coverage']['instances_by_status'], ev['coverage'].get('known_findings_hit'))
-for i in ev['coverage']['inconclusive'][:6]: print('INC', i['id'], i['status'], i['why'][-900:])
+for i in ev['coverage']['inconclusive'][:6]: print('INC', i['id'], i['status'], i['why'][-500:])
 seen=set()
 for f in sorted(glob.glob('/verif/replay/%s/*.json'%P)):
     v=json.load(open(f))
